@@ -24,6 +24,11 @@ package dastard
 //        source configurations, record lengths, trigger settings, base path; transient
 //        topics absent), and the bounded-delay rule (a change is on disk a few seconds
 //        after the last change, well before the one-minute ticker).
+//        In faulted runs a process may have one failing file-system operation in one of its
+//        saves (followed by a later change), and/or a fault window at the end of its life:
+//        a change, the next one to three save attempts fail in one operation each, the
+//        faults stop, no saved topic changes any more, and c16CatchUp later the process
+//        exits: what it leaves must still read back as the latest values.
 //   C16b crash points: for five save histories every operation boundary of the save(s) is
 //        enumerated inside one run; oracle 3 (the file start-up reads exists, parses and
 //        is the complete old or the complete new version).
@@ -573,6 +578,9 @@ type c16World struct {
 	hsc      *SourceControl
 	soft     bool
 	softMiss string
+	// lateSig, when set, is the signature of a C16.saved-latest mismatch (the directory is
+	// judged after a fault window that was followed by no change of a saved topic)
+	lateSig string
 	// persist is the cumulative model: latest value of every configuration topic over
 	// all processes that saved into the directory under consideration.
 	nUnchanged, nTickerSaves, nTimerSaves int
@@ -603,6 +611,19 @@ type c16Gen struct {
 	// one failing file-system operation (faulted configuration)
 	plan      *simrt.FaultFS
 	faultSeen bool
+	// every plan installed for this process (the early one and those of a fault window), and
+	// how many fired ones the harness has already attributed to a kept file
+	plans     []*simrt.FaultFS
+	firedSeen int
+	// fault window (late phase of a faulted run): while it is open, every save attempt of the
+	// process has one failing file-system operation (position and error drawn beforehand)
+	winOpen     bool
+	winKs       []int
+	winErr      error
+	winAttempts int
+	// set when the process went through a fault window in which a save attempt failed and
+	// published no change of a saved topic afterwards
+	lateWhat  string
 	lastBytes []byte            // configuration file at the last look
 	lastPub   map[string]string // most recent publication per status topic of this process
 	anomaly   string
@@ -654,6 +675,16 @@ func (w *c16World) startProcess(home string, base map[string]interface{}) *c16Ge
 			}
 			g.armedAt = time.Time{}
 			g.saves = append(g.saves, so)
+			if g.winOpen {
+				// a save attempt begins inside the fault window: one of its operations fails
+				pl := simrt.NewFaultFS("")
+				pl.FailMatch = "config."
+				pl.FailAt = g.winKs[g.winAttempts%len(g.winKs)]
+				pl.FailErr = g.winErr
+				g.plans = append(g.plans, pl)
+				simrt.SetFS(pl)
+				g.winAttempts++
+			}
 		}
 	}
 	viper.SetFs(g.fs)
@@ -713,6 +744,7 @@ func (g *c16Gen) ioFault() {
 	g.plan.FailMatch = "config."
 	g.plan.FailAt = simrt.DrawFault(30)
 	g.plan.FailErr = errs[simrt.DrawFault(len(errs))]
+	g.plans = append(g.plans, g.plan)
 	simrt.SetFS(g.plan)
 	g.w.env.Op("process plan: file-system operation number %d on the configuration files fails with %v", g.plan.FailAt, g.plan.FailErr)
 }
@@ -986,17 +1018,31 @@ func (g *c16Gen) look(what string) {
 		simrt.Fail("C16.save-content", "config-missing-after-save", "after a save %s cannot be read: %v (directory: %v)", c16Main(g.home), err, c16RawList(c16Dot(g.home)))
 	}
 	sn := c16Snap{bytes: b, nPub: last.nPubAtBegin, what: what}
-	if g.plan != nil && g.plan.Fired && !g.faultSeen {
-		// one of these saves had a failing operation: the file is the one from before or
-		// the complete result of one of these saves
+	if fired := g.fired(); len(fired) > g.firedSeen {
+		// one (or, in a fault window, several) of these saves had a failing operation: the file
+		// is the one from before or the complete result of one of these saves
 		g.faultSeen = true
 		sn.old = g.lastBytes
 		sn.cand = cand
-		sn.what += fmt.Sprintf(" (operation %d, %q, failed)", g.plan.FailAt, c16FailedOp(g.plan))
+		for _, pl := range fired[g.firedSeen:] {
+			sn.what += fmt.Sprintf(" (operation %d, %q, failed)", pl.FailAt, c16FailedOp(pl))
+		}
+		g.firedSeen = len(fired)
 		simrt.Hit("save-with-failed-operation-observed")
 	}
 	g.lastBytes = b
 	g.snaps = append(g.snaps, sn)
+}
+
+// fired lists the plans of this process whose failure has happened, in order of installation.
+func (g *c16Gen) fired() []*simrt.FaultFS {
+	var out []*simrt.FaultFS
+	for _, pl := range g.plans {
+		if pl.Fired {
+			out = append(out, pl)
+		}
+	}
+	return out
 }
 
 // c16FailedOp names the operation the plan made fail.
@@ -1125,6 +1171,13 @@ func (w *c16World) fail(rule, sig, format string, args ...interface{}) {
 	simrt.Fail(rule, sig, format, args...)
 }
 
+func (w *c16World) latestSig() string {
+	if w.lateSig != "" {
+		return w.lateSig
+	}
+	return "latest-change-not-on-disk"
+}
+
 func (w *c16World) checkRestored(r *c16Restored, model map[string]interface{}, rule, what string) {
 	cmp := func(topic string, got, want interface{}) {
 		g, x := c16Canon(got), c16Canon(want)
@@ -1133,7 +1186,7 @@ func (w *c16World) checkRestored(r *c16Restored, model map[string]interface{}, r
 			if rule == "C16.saved-latest" {
 				// the files written by this process's saves were right when they were written
 				// (checked before): what is on disk now is older than the latest change
-				sig = "latest-change-not-on-disk"
+				sig = w.latestSig()
 			}
 			w.fail(rule, sig, "%s: the next start-up yields %s = %s, the latest value published was %s (UnmarshalKey error: %v)",
 				what, topic, c16Short(g), c16Short(x), r.errs[strings.ToLower(topic)])
@@ -1179,7 +1232,7 @@ func (w *c16World) checkRestored(r *c16Restored, model map[string]interface{}, r
 				if c16Canon(got) != c16Canon(want) {
 					sig := "restored-trigger-differs"
 					if rule == "C16.saved-latest" {
-						sig = "latest-change-not-on-disk"
+						sig = w.latestSig()
 					}
 					w.fail(rule, sig, "%s: PrepareRun gives channel %d the trigger state %s, the latest published one was %s", what, c, c16Canon(got), c16Canon(want))
 				}
@@ -1412,6 +1465,117 @@ func (w *c16World) setupCringe() {
 	c16RawWrite(cringeGlobalsPath, []byte(txt))
 }
 
+// c16CatchUp is how long after the end of a fault window the harness lets the process live
+// before it judges the directory. The property gives no number; what it demands is that the
+// file saved for the next run has the latest values, so a save that failed has to be made up
+// for once saving is possible again. The updater's own promise is a save "this often" (one
+// minute, comment in client_updater.go); two such periods and a margin are allowed here. It
+// is simulated time. (A ready updater waits at most 2500 scheduler steps of at most 2 ms of
+// simulated CPU each for its turn: 5 s, far inside the margin.)
+const c16CatchUp = 125 * time.Second
+
+// c16WindowMax bounds how long a fault window is held open while the harness waits for the
+// number of save attempts it wants the window to cover.
+const c16WindowMax = 150 * time.Second
+
+// faultWindow is the late phase of a faulted process: a change of a saved topic, a fault
+// window that covers the next one to three save attempts (each attempt has one failing
+// file-system operation), then the end of the faults and NO further change of a saved topic
+// while the process lives on for c16CatchUp. Nothing is demanded while the window is open
+// (files seen meanwhile are judged old-or-new like after any failed save); what the process
+// leaves behind at exit is judged by the caller (C16.saved-latest: the next start-up reads
+// back the latest values).
+func (g *c16Gen) faultWindow(gi int, prev map[string]interface{}) {
+	env := g.w.env
+	g.quiesce()
+	g.look(fmt.Sprintf("process %d, before the fault window", gi))
+	want := []int{1, 1, 1, 2, 2, 3}[simrt.DrawFault(6)]
+	errs := []error{syscall.EIO, syscall.ENOSPC, syscall.EACCES}
+	g.winErr = errs[simrt.DrawFault(len(errs))]
+	g.winKs = nil
+	for i := 0; i < want; i++ {
+		g.winKs = append(g.winKs, simrt.DrawFault(9))
+	}
+	g.winAttempts = 0
+	fired0 := len(g.fired())
+	g.winOpen = true
+	simrt.Hit("fault-window")
+	env.Op("fault window opens: each of the next %d save attempt(s) has one failing operation (positions %v, %v)", want, g.winKs, g.winErr)
+	// changes of saved topics: a certain one, sometimes others before it
+	for i, m := 0, simrt.Draw(3); i < m; i++ {
+		tag := c16DrawTopic()
+		if tag == "ALIVE" {
+			tag = "TRIGGERRATE"
+		}
+		st := c16Value(tag)
+		prev[tag] = st
+		it := c16Item{tag: tag, state: st}
+		env.Op("update %s", it)
+		g.feed(it)
+	}
+	it := c16Item{tag: "STATELABEL", state: fmt.Sprintf("inside the fault window, process %d", gi)}
+	prev[it.tag] = it.state
+	env.Op("update %s", it)
+	g.feed(it)
+	g.quiesce()
+	t0 := time.Now()
+	for g.winAttempts < want && !g.exited && time.Since(t0) < c16WindowMax {
+		time.Sleep(time.Second)
+	}
+	time.Sleep(time.Second) // the attempt that began last is over
+	g.winOpen = false
+	pl := simrt.NewFaultFS("") // no fault from here on
+	g.plans = append(g.plans, pl)
+	simrt.SetFS(pl)
+	nFailed := len(g.fired()) - fired0
+	env.Op("fault window closes after %v: %d save attempt(s) began in it, %d operation(s) failed; no change of a saved topic from here on", time.Since(t0), g.winAttempts, nFailed)
+	savesAtClose := len(g.saves)
+	g.look(fmt.Sprintf("process %d, in the fault window", gi))
+	if g.winAttempts < want {
+		simrt.Hit("fault-window-ends-before-the-attempts-wanted")
+	}
+	// probe only: is the disk behind when the faults stop? (the label is plain text in the file)
+	if b, err := c16RawRead(c16Main(g.home)); err == nil && !strings.Contains(string(b), it.state.(string)) {
+		simrt.Hit("disk-behind-when-fault-window-closes")
+	}
+	if nFailed > 0 {
+		simrt.Fault("ioerr-window-during-save")
+		simrt.Hit(fmt.Sprintf("fault-window:%d-failed-attempts", nFailed))
+	}
+	if g.winAttempts >= 2 {
+		simrt.Hit("fault-window-covers-change-save-and-regular-save")
+	}
+	// the process lives on; clients and transient status keep it busy, but nothing that is
+	// saved changes: unchanged values of saved topics, transient topics, SENDALL
+	time.Sleep(c16CatchUp / 3)
+	for i, m := 0, simrt.Draw(4); i < m; i++ {
+		var it c16Item
+		switch simrt.Draw(3) {
+		case 0:
+			it = c16Item{tag: "STATELABEL", state: prev["STATELABEL"]} // the same value again
+		case 1:
+			it = c16Item{tag: "TRIGGERRATE", state: c16Value("TRIGGERRATE")}
+		default:
+			it = c16Item{tag: "NUMBERWRITTEN", state: c16Value("NUMBERWRITTEN")}
+		}
+		env.Op("update %s", it)
+		g.feed(it)
+	}
+	g.quiesce()
+	time.Sleep(c16CatchUp - c16CatchUp/3)
+	g.look(fmt.Sprintf("process %d, after the fault window", gi))
+	if len(g.saves) > savesAtClose {
+		simrt.Hit("save-after-fault-window-without-a-change")
+	}
+	env.Op("SENDALL (%v after the fault window)", c16CatchUp)
+	g.sendAll()
+	if nFailed > 0 {
+		simrt.Hit("failed-save-then-no-further-change")
+		g.lateWhat = fmt.Sprintf("which went through a fault window (%d save attempt(s), %d failed operation(s), the last one %q), published no change of a saved topic after it and exited %v after its end",
+			g.winAttempts, nFailed, c16FailedOp(g.fired()[len(g.fired())-1]), c16CatchUp)
+	}
+}
+
 // C16aBody is one run of the histories check.
 func C16aBody(env *simrt.Env, startup func() error) {
 	w := c16Setup(env, startup)
@@ -1506,6 +1670,10 @@ func C16aBody(env *simrt.Env, startup func() error) {
 			g.sendAll()
 			totalSendall++
 		}
+		if env.Faulted() && n > 0 && simrt.Chance(1, 2) {
+			g.faultWindow(gi, prev)
+			totalSendall++
+		}
 		env.Op("process %d exits", gi)
 		g.quiesce()
 		g.stop()
@@ -1526,7 +1694,13 @@ func C16aBody(env *simrt.Env, startup func() error) {
 		model = g.modelAt(len(g.fed))
 		rej = g.rejAt(len(g.fed))
 		// the bounded-delay rule: the directory the process leaves behind has everything
-		w.checkHome(home, model, "C16.saved-latest", fmt.Sprintf("directory left by process %d, which exited %v after its last update", gi, c16SaveWait))
+		leftBy := fmt.Sprintf("directory left by process %d, which exited %v after its last update", gi, c16SaveWait)
+		if g.lateWhat != "" {
+			leftBy = fmt.Sprintf("directory left by process %d, %s", gi, g.lateWhat)
+			w.lateSig = "no-catch-up-after-failed-save"
+		}
+		w.checkHome(home, model, "C16.saved-latest", leftBy)
+		w.lateSig = ""
 		sample[fmt.Sprintf("process%d", gi)] = map[string]interface{}{"updates": len(g.fed), "saves": len(g.saves), "topics": len(g.lastPub), "announced": len(g.announced)}
 	}
 	if w.nTickerSaves > 0 && w.nTimerSaves > 0 {
